@@ -546,7 +546,7 @@ func runDocs(c *hx.Ctx, idx int) {
 }
 
 func Run(c *hx.Ctx) {
-	c.Rep.Rule = "parser sessions (1-4 operator programs, earlier ones ending mid-operand, plus failing raw inputs) compared with the parse alone; font dictionaries (1-5 names incl. aliasing pairs F and /F) registered 24 times each; 2-6 documents of the seven formats extracted alone, repeatedly, after other and failing extractions, and on 4-16 goroutines at once under the race detector, comparing digests of Text/ToMarkdown/Chunks().ToJSONL()/ToCSV(); non-trivial = session with at least one operation / every font and document case"
+	c.Rep.Rule = "parser sessions (1-4 operator programs, earlier ones ending mid-operand, plus failing raw inputs) compared with the parse alone; font dictionaries (1-5 names incl. aliasing pairs F and /F) registered 24 times each; 2-6 documents of the seven formats extracted alone, repeatedly, after other and failing extractions, and on 4-16 goroutines at once under the race detector, comparing digests of Text/ToMarkdown/Chunks().ToJSONL()/ToCSV(); 2-5 page PDFs whose pages share one resources dictionary (inherited from a /Pages node or one indirect object) and draw through Form XObjects whose own resources rebind the shared XObject/font names, each page extracted alone on a fresh reader, after 4-9 other page extractions on one caller-owned reader, and inside Open(f).Text(); trees of up to 16 Extractors derived from one base (file name or caller-owned reader) by Pages/PageRange/layout switches, families of siblings derived before any runs, run in arbitrary order, repeatedly and from 3-6 goroutines, each compared with a fresh linear chain of the same calls run alone; non-trivial = session with at least one operation / every font and document case"
 	runMetricsHistory(c) // first: nothing may have touched the font tables yet
 	for i := 0; i < c.N(1500, 40000); i++ {
 		runSession(c, i)
@@ -563,9 +563,25 @@ func Run(c *hx.Ctx) {
 	for i := 0; i < c.N(10, 150); i++ {
 		runUndeclaredFont(c, i)
 	}
+	for i := 0; i < c.N(60, 1200); i++ {
+		runForms(c, i)
+	}
+	for i := 0; i < c.N(60, 1200); i++ {
+		runDerive(c, i)
+	}
 }
 
 func Replay(c *hx.Ctx, m map[string]interface{}) {
+	if kind, _ := m["kind"].(string); kind != "" {
+		idx, _ := m["index"].(float64)
+		switch kind {
+		case "forms":
+			runForms(c, int(idx))
+		case "derive":
+			runDerive(c, int(idx))
+		}
+		return
+	}
 	if idx, ok := m["index"].(float64); ok {
 		runDocs(c, int(idx))
 		return
